@@ -108,9 +108,16 @@ struct FwdObs : public Observer {
     if (magnitude_hit)
       throw Truncate{"int64_dbm_weights_large_magnitude"};
   }
+  // int64-weight DBMs: overflow is unchecked by design (graph_config.hpp), so
+  // states with huge values (and the probes built from them) are outside the model
+  void guard_state(const State &s) {
+    if (INT64_WEIGHTS && state_has_large_value(s))
+      throw Truncate{"int64_dbm_weights_large_concrete_value"};
+  }
   void block_entry(const cfg_t &cfg, const label_t &l, const State &s) override {
     BlockInv &bi = inv(l);
     guard_magnitude();
+    guard_state(s);
     note(bi.pre);
     checks++;
     std::string r = member(s, bi.pre, mo);
@@ -121,6 +128,7 @@ struct FwdObs : public Observer {
     BlockInv &bi = inv(l);
     compute_after(cfg, l, bi);
     guard_magnitude();
+    guard_state(s);
     if (idx >= bi.after.size())
       return;
     checks++;
@@ -132,6 +140,7 @@ struct FwdObs : public Observer {
   void block_exit(const cfg_t &cfg, const label_t &l, const State &s) override {
     BlockInv &bi = inv(l);
     guard_magnitude();
+    guard_state(s);
     note(bi.post);
     checks++;
     std::string r = member(s, bi.post, mo);
@@ -259,6 +268,8 @@ void run_case(const uint8_t *data, size_t size, CaseCtx &ctx) {
     }
     Interp in(t);
     in.obs = &obs;
+    if (INT64_WEIGHTS)
+      in.big_chance = 0;
     Stop why = in.run(cfg, cfg.entry(), s);
     total_blocks += in.path.size();
     if (in.path.size() >= 3)
